@@ -49,6 +49,7 @@ WORKLOADS = {
     "any_object": ("w_erase.cpp", ()),
     "any_unique": ("w_erase.cpp", ()),
     "coro": ("w_coro.cpp", ()),
+    "io_epoll": ("w_io.cpp", ("fdlayer",)),
 }
 
 PROPS = {
@@ -416,5 +417,32 @@ PROPS = {
                     "async_trace.hpp force-included (with_query_value.hpp uses visit_continuations without including it)."),
         real=["every adaptor of the interpreter, the stream adaptors and task<> in up to eight build configurations", "async_stack.cpp bookkeeping"],
         stub=["pthread layer, heap (usim)"],
+    ),
+    "C14": dict(
+        title="I/O contexts complete each operation once with the true result; no stale state",
+        batches=[
+            B("w_io.cpp", "io_epoll", rt=("fdlayer",), quick=16, thorough=300, oracles=["c14.", "c07."] + RT_ALL),
+            B("w_io.cpp", "io_epoll", cfg="S17r", rt=("fdlayer",), quick=6, thorough=120, oracles=["c14.", "c07."] + RT_ALL),
+        ],
+        level_text=("io_epoll_context only. The library's epoll code runs unmodified on the real kernel's epoll, eventfd and pipe objects (private "
+                    "to the process, one sim thread at a time, hence deterministic); time is virtual: timerfd is an eventfd written by the "
+                    "simulated clock, epoll_wait(-1) polls with timeout 0 and otherwise blocks in the simulator until a write/close/epoll_ctl/"
+                    "timer expiry. Seeded runs: one run(stop_token) thread; 1-3 producers start 0-10 schedule()/schedule_at() operations "
+                    "remotely (stop before start, right after, or later; hour-long timers are cancelled); a writer and a reader thread perform "
+                    "up to 6 sequential async_write_some / async_read_some operations of 1-48 bytes on a pipe with per-read stop requests "
+                    "(before start, while parked, racing readiness) and harness cancellation of reads that can no longer be satisfied; "
+                    "faults: short reads/writes, clock jitter, stalled threads, spurious weak-CAS failure. Oracles: every item/timer/read/write "
+                    "completes exactly once, on the run() thread; nothing lost (deadlock); timers never early, due order, prompt cancel; byte "
+                    "counts within bounds; the bytes read are exactly the written stream in order (a cancelled read that consumed data, or any "
+                    "loss/duplication, breaks the sequence); a read completed with done left its buffer untouched; done only after a stop "
+                    "request; op states and buffers are freed right after completion, so any later reference by the context (including a stale "
+                    "epoll registration delivering a dangling data.ptr) is a shadow-memory hit; every descriptor created in the run is closed "
+                    "exactly once; run(stop) returns; context destructor."),
+        level_note=("NOT covered: io_uring_context (the kernel model planned in DESIGN.md 2.6 was not built), mmap_region, sockets, injected OS "
+                    "errors (the epoll read/write paths compare readv/writev results with -EAGAIN although libc returns -1/errno; error "
+                    "reporting is therefore not exercised), EINTR from epoll_wait (run() documents no recovery and throws)."),
+        real=["io_epoll_context (run loop, remote queue + eventfd wake-up, timers, read/write senders, cancellation)", "safe_file_descriptor, monotonic_clock",
+              "Linux epoll / eventfd / pipe (real kernel objects)"],
+        stub=["clock_gettime, timerfd (virtual time), blocking epoll_wait (simulated blocking)", "pthread layer, heap (usim)"],
     ),
 }
